@@ -617,7 +617,15 @@ func (l *Lexer) readBacktick() (string, error) {
 			break
 		}
 	}
-	return string(l.characters[position:l.position]), err
+	// Carriage returns are discarded from the value of a raw string, so that
+	// a source file means the same with LF and with CRLF line endings.
+	value := make([]rune, 0, l.position-position)
+	for _, ch := range l.characters[position:l.position] {
+		if ch != '\r' {
+			value = append(value, ch)
+		}
+	}
+	return string(value), err
 }
 
 func (l *Lexer) peekChar() rune {
